@@ -122,6 +122,8 @@ class Engine(ExprEval, NumpyModel, NumpyFuncs):
                     raise Unsupported(f"property {name} of interface-typed object without a declared value")
                 return self.call_merged(st, fi, [o], {}, node)
             if fi.is_static:
+                if getattr(o, "abstract", False):
+                    return FuncRef("static_on_iface", fi, self_obj=o, name=f"{o.cls.name}.{name}")
                 return FuncRef("func", fi, name=f"{o.cls.name}.{name}")
             return FuncRef("method", fi, self_obj=o, name=f"{o.cls.name}.{name}")
         ca = self.repo.find_class_attr(o.cls, name)
@@ -169,7 +171,7 @@ class Engine(ExprEval, NumpyModel, NumpyFuncs):
         return args, kw
 
     def is_heavy(self, fr):
-        return isinstance(fr, FuncRef) and fr.kind in ("func", "method", "method_exact", "class", "external", "unbound", "extmethod")
+        return isinstance(fr, FuncRef) and fr.kind in ("func", "method", "method_exact", "class", "external", "unbound", "extmethod", "static_on_iface")
 
     def call_value(self, st, fr, args, kw, node):
         if not isinstance(fr, FuncRef):
@@ -251,7 +253,9 @@ class Engine(ExprEval, NumpyModel, NumpyFuncs):
             # interface contracts registered on an ancestor's method apply to calls through a subclass-typed object
             pass
         for exact in (True, False):
+            best, best_score = None, -1
             for c in cands:
+                score = 0
                 if c.inline:
                     continue
                 if c.self_class and self_obj is not None and not self.repo.is_subclass(self_obj.cls, c.self_class):
@@ -277,13 +281,21 @@ class Engine(ExprEval, NumpyModel, NumpyFuncs):
                         if base != "self":
                             continue
                         cur = st_heap_get(self, self_obj, fld)
+                        ts = parse_type(tstr)
                         if cur is _MISSING:
+                            if fld.startswith("ghost_") and ts.const is not None:
+                                ok = False      # a ghost trait the variant is keyed on must be declared by the caller
+                                break
                             continue
-                        if not static_matches(parse_type(tstr), cur, self.repo, exact):
+                        if not static_matches(ts, cur, self.repo, exact):
                             ok = False
                             break
-                if ok:
-                    return c
+                        if ts.const is not None:
+                            score += 1
+                if ok and score > best_score:
+                    best, best_score = c, score
+            if best is not None:
+                return best
         return None
 
     def bind_args(self, fi: FuncInfo, args, kw, st, self_val=None):
@@ -323,6 +335,17 @@ class Engine(ExprEval, NumpyModel, NumpyFuncs):
         if k == "class":
             return self.construct(st, fr.target, args, kw, node)
         fi: FuncInfo = fr.target
+        if k == "static_on_iface":
+            # a static method reached through an interface-typed object: an interface contract (with `self`) takes precedence
+            bound = self.bind_args(fi, args, kw, st, None)
+            bound2 = dict(bound)
+            bound2["self"] = fr.self_obj
+            self._cur_state = st
+            c = self.find_contract(fi, bound2, fr.self_obj)
+            if c is not None:
+                return self.apply_contract(st, c, fi, bound2, node)
+            self.inlined.add(fi.key)
+            return self.inline_bound(st, fi, bound, node)
         self_val = fr.self_obj if k in ("method", "method_exact") else None
         if k == "unbound" and fr.self_obj is not None:
             self_val = fr.self_obj   # classmethod: cls
@@ -533,6 +556,8 @@ class Engine(ExprEval, NumpyModel, NumpyFuncs):
             raise Unsupported("sorted() of non-list")
         n = v.length
         elem = v.elem
+        if isinstance(elem, tuple) and any(isinstance(kd, str) and kd.startswith("arr:") for kd in elem[1]):
+            return self.sorted_list_arr(st, v, node)
         out = sym_list("sorted", elem if elem is not None else "int", n)
         perm = z3.Function(fresh_name("sperm"), z3.IntSort(), z3.IntSort())
         inv = z3.Function(fresh_name("sinv"), z3.IntSort(), z3.IntSort())
@@ -560,6 +585,39 @@ class Engine(ExprEval, NumpyModel, NumpyFuncs):
         t1 = a1[0] if isinstance(a1, tuple) else a1
         t2 = a2[0] if isinstance(a2, tuple) else a2
         st.assume(z3.ForAll([k, k2], z3.Implies(z3.And(k >= 0, k <= k2, k2 < nz), zbool(le(a1, a2))), patterns=[z3.MultiPattern(t1, t2)]))
+        out.perm, out.perm_inv = perm, inv
+        self.note_assumption("python: sorted()/list.sort() return a permutation of the input in ascending (lexicographic) order")
+        return out
+
+    def sorted_list_arr(self, st, v, node):
+        """sorted() of a list of tuples (scalars..., ndarray, ...): Python compares lexicographically and reaches the ndarray component only
+        when all earlier components tie -- then `a < b` on arrays has no truth value (ValueError). Obligation: the scalar prefixes are pairwise
+        distinct; the result is the input permuted into ascending lexicographic order of those prefixes."""
+        n, elem = v.length, v.elem
+        kinds = elem[1]
+        npre = next(i for i, kd in enumerate(kinds) if isinstance(kd, str) and kd.startswith("arr:"))
+        if npre == 0:
+            raise Unsupported("sorted() of tuples starting with an array (ValueError in python for ties)")
+        nz = to_z3(n)
+        i, j = fresh_int("i"), fresh_int("j")
+        pre = lambda t: t[:npre]
+        same = mk_and(*[num_cmp("==", x, y) for x, y in zip(pre(v.get(i)), pre(v.get(j)))])
+        self.oblige(st, z3.ForAll([i, j], z3.Implies(z3.And(0 <= i, i < j, j < nz), z3.Not(zbool(same)))), "lib",
+                    "sorted(): tuples must not tie on every component before the ndarray one (array comparison has no truth value)", node)
+        perm = z3.Function(fresh_name("sperm"), z3.IntSort(), z3.IntSort())
+        inv = z3.Function(fresh_name("sinv"), z3.IntSort(), z3.IntSort())
+        out = Lst(n, lambda k: v.get(perm(to_z3(k))), elem)
+        k, k2 = fresh_int("k"), fresh_int("k")
+
+        def lt(a, b):
+            r = False
+            for x, y in reversed(list(zip(pre(a), pre(b)))):
+                r = mk_or(num_cmp("<", x, y), mk_and(num_cmp("==", x, y), r))
+            return r
+
+        st.assume(z3.ForAll([k], z3.Implies(z3.And(k >= 0, k < nz), z3.And(perm(k) >= 0, perm(k) < nz, inv(perm(k)) == k)), patterns=[perm(k)]))
+        st.assume(z3.ForAll([k], z3.Implies(z3.And(k >= 0, k < nz), z3.And(inv(k) >= 0, inv(k) < nz, perm(inv(k)) == k)), patterns=[inv(k)]))
+        st.assume(z3.ForAll([k, k2], z3.Implies(z3.And(k >= 0, k < k2, k2 < nz), zbool(lt(out.get(k), out.get(k2)))), patterns=[z3.MultiPattern(perm(k), perm(k2))]))
         out.perm, out.perm_inv = perm, inv
         self.note_assumption("python: sorted()/list.sort() return a permutation of the input in ascending (lexicographic) order")
         return out
@@ -935,7 +993,7 @@ class Engine(ExprEval, NumpyModel, NumpyFuncs):
                     if v.func.attr == "append":
                         new = self.list_concat(cur, Lst.of([args[0]], cur.elem))
                         if new.elem is None:
-                            new.elem = kind_of(args[0]) if is_numv(args[0]) else (("tuple", [kind_of(x) for x in args[0]]) if isinstance(args[0], tuple) else None)
+                            new.elem = kind_of(args[0]) if is_numv(args[0]) else (("tuple", [("arr:" + x.kind) if isinstance(x, Arr) else kind_of(x) for x in args[0]]) if isinstance(args[0], tuple) else None)
                     elif v.func.attr == "extend":
                         new = self.list_concat(cur, args[0])
                     else:
@@ -1457,6 +1515,8 @@ class Engine(ExprEval, NumpyModel, NumpyFuncs):
             return l
         if b == "tuple":
             return tuple(self.make_value(st, t, f"{name}_{i}", scope) for i, t in enumerate(ts.elem))
+        if b in ("series", "frame"):
+            return Opaque(b, self.make_value(st, ts.elem, name, scope))
         if b == "obj":
             abstract = ts.cls.startswith("~")
             cname = ts.cls.lstrip("~")
